@@ -2,6 +2,7 @@ package main
 
 import (
 	"fmt"
+	"regexp"
 	"go/token"
 	"go/types"
 	"os"
@@ -211,9 +212,16 @@ func (e *Engine) emitAxioms(fe *FuncEnc, st *State) {
 		fe.params = map[string]EV{}
 		t := fe.evalBool(env, ax.Expr, "axiom "+ax.Name)
 		fe.params = saved
-		fe.sc.assert(t)
-		fe.usedAssumed["axiom "+ax.Name] = true
+		fe.axioms = append(fe.axioms, axiomLine{name: ax.Name, text: "(assert " + t + ")", syms: sfRe.FindAllString(t, -1)})
 	}
+}
+
+var sfRe = regexp.MustCompile(`sf_[A-Za-z0-9_]+`)
+
+type axiomLine struct {
+	name string
+	text string
+	syms []string
 }
 
 // functionsUnderContract lists the in-repo functions that have a verifiable contract.
